@@ -28,20 +28,50 @@ CLAIM = dict(
           "valid allocation answer) load_routing_table_entries leaves exactly the given entries in rows base..base+n-1 in "
           "order, owned by the application, every other row unchanged; an allocation answer 0 raises SpiNNakerRouterError "
           "with no write and no load command and the router unchanged; get_routing_table_entries returns for every row "
-          "exactly its key, mask, route set, app id, core (None for unused rows). Tied to the code by exact table "
-          "correspondence on generated forests and by request-trace correspondence of the real MachineController against "
-          "a simulated router that is itself replayed through the Lean specification on every run."),
+          "exactly its key, mask, route set, app id, core (None for unused rows). Machine of several chips (map chip -> "
+          "chip state, any valid allocation policy per chip, tables in the dict's iteration order): load_routing_tables "
+          "returns normally iff every chip grants its allocation, then every chip of the dict holds exactly its entries and "
+          "every other chip is unchanged (load_tables_exact, load_tables_ok_iff); otherwise the error names the first "
+          "refusing chip, the chips before it are loaded (not rolled back), that chip, all later ones and all others are "
+          "untouched (load_tables_failure, load_tables_spec). End to end (trees_to_router): for well-formed trees without "
+          "conflict, loading treeTables(trees) and reading every chip back returns at base..base+n-1 entries whose key/mask "
+          "are those the trees use on that chip and whose route set is exactly the trees' departures there (the table's "
+          "sources exactly their arrivals), everything else as before. Retransmitted alloc_rtr (first reply lost) on the "
+          "router specification: the first block stays allocated to the application and unused (leak), the load is still "
+          "exact for the block the controller was told about, the leak ends with free_rtr_by_app (alloc_retransmit_leak, "
+          "alloc_retransmit_refused, leak_recovered_by_clear). Cross-model: conversion C10 entry <-> C04 entry preserves "
+          "matches and first-match lookup for all 32-bit keys (toC04_lookup, ofC04_lookup, round trips), so tables from "
+          "treeTables can be fed to C04's theorems (treeTables_c04_lookup), and the router's lowest-matching-row decision "
+          "after a load is that lookup (loaded_router_lookup, loaded_router_lookup_c04; assuming no used row outside the "
+          "block matches the key). Tied to the code by exact table "
+          "correspondence on generated forests and by request-trace and final-router correspondence of the real "
+          "MachineController against the Lean machine `runM` (the function the theorems are about) and a simulated router "
+          "that is itself replayed through the Lean specification on every run, including a stream in which alloc_rtr "
+          "requests or their replies are lost; the Lean predicates LoadSpec/ReadbackSpec/TablesLoadSpec/TablesSpec are "
+          "evaluated on the implementation's own outputs."),
     design="3/C10",
-    note=("The router behaviour of SC&MP/SARK (alloc_rtr answers 0 or the first row of a free block; load copies record i of "
-          "the buffer to row base+next_i with the app id; the router copy encodes unused rows with route 0xff000000) is a Lean "
-          "specification, simulated in Python and cross-checked against that specification. Order of entries within a chip's "
-          "table from routing_tree_to_tables is modelled (insertion order) but not demanded by the property. Network is "
-          "reliable in this check (loss/reordering is C06/C07; alloc_rtr is not idempotent under retransmission)."),
+    note=("Proved: everything listed in THEOREMS, for all inputs. Validated only (differential, every run): that the Lean "
+          "model is the code (traces, outcomes, router contents, tables) and that the Python simulator is the Lean router "
+          "specification. The router behaviour of SC&MP/SARK (alloc_rtr answers 0 or the first row of a free block; load "
+          "copies record i of the buffer to row base+next_i with the app id; the router copy encodes unused rows with route "
+          "0xff000000) is a Lean specification written from the repo's constants and docstrings. Order of entries within a "
+          "chip's table from routing_tree_to_tables, and the order of chips in load_routing_tables, are modelled (insertion "
+          "order / dict order) but not demanded by the property: a deviation there is reported as a broken correspondence, "
+          "not as a violation; a changed router on a chip that has no table is a violation. The hardware stores no "
+          "sources: read-back is compared on key, mask, route, app id. alloc_rtr is not idempotent: a retransmission after "
+          "a lost reply leaks a block until the application is stopped; the property's clauses still hold (theorem), the "
+          "leak is counted in evidence (coverage.retransmitted_alloc), not reported. General loss/reordering is C06/C07."),
     technique="Lean 4 theorems over a hand-written model + differential correspondence + Lean spec as oracle")
 
 THEOREMS = ["routes_enum_documented", "traverse_exact", "tables_exact", "multisource_iff", "tables_total",
             "tables_spec", "rte_roundtrip", "route_word_bits", "load_exact", "load_alloc_failure",
-            "readback_exact", "load_then_readback", "clear_exact"]
+            "readback_exact", "load_then_readback", "clear_exact",
+            # Props/C10Machine.lean: machine of several chips, end to end, retransmitted allocation
+            "load_tables_exact", "load_tables_failure", "load_tables_ok_iff", "load_tables_spec", "trees_to_router",
+            "alloc_retransmit_leak", "alloc_retransmit_refused", "leak_recovered_by_clear",
+            # Props/C10Cross.lean: C10 entries <-> C04 entries
+            "toC04_matches", "toC04_lookup", "ofC04_lookup", "toC04_route_bits", "toC04_sources_bits", "toC04_ofC04",
+            "ofC04_toC04", "treeTables_c04_lookup", "loaded_router_lookup", "loaded_router_lookup_c04"]
 
 RULE = ("pure cases = forests of 1-6 nets on a 4x4 torus: random branching trees/chains with vertex leaves (core route, link "
         "route or None), key/mask drawn from a pool of 1-3 so nets share them, later nets re-using (copying) subtrees of "
@@ -49,9 +79,11 @@ RULE = ("pure cases = forests of 1-6 nets on a 4x4 torus: random branching trees
         "stream (subtree under route None / under a core route); machine cases = tables of 0..1024 entries (sizes 0,1,2,3,"
         "16,17,64,1023,1024 and random) over all 24 route bits with full-width keys/masks, 1-3 chips, app ids 0..255, scp "
         "buffer sizes 16..512, random router free-list states (fragmented, full, empty) and allocation policies (first "
-        "fit, last fit, random fit, refuse), followed by a full read-back and optionally a clear; non-trivial = (pure) at "
+        "fit, last fit, random fit, refuse), 0-2 bystander chips that have a router state but no table, followed by a full "
+        "read-back and optionally a clear; lossy stream = the same with the first one or two transmissions of a chip's "
+        "alloc_rtr request or of its reply lost (the chip then executes the allocation twice); non-trivial = (pure) at "
         "least two nodes share chip+key+mask, (machine) a table of >= 2 entries was loaded or an allocation failed with a "
-        "non-empty router; distinct = distinct canonical JSON of the case")
+        "non-empty router or a block was leaked by a retransmitted allocation; distinct = distinct canonical JSON of the case")
 
 LINK_VEC = simmachine.LINK_VEC
 W = H = 4
@@ -227,16 +259,24 @@ def shares(case):
 
 
 def eval_forests(ctx, cases):
+    from harness import c04
     reqs = []
     for c in cases:
         c["_impl"] = impl_tables(c)
         reqs.append({"suite": "c10", "op": "tables", "nets": c["nets"]})
         reqs.append({"suite": "c10", "op": "tables_spec", "nets": c["nets"], "result": c["_impl"]})
+        reqs.append({"suite": "c10", "op": "to_c04", "tables": c["_impl"].get("ok", [])})
     out = ctx.lean(reqs)
     for i, c in enumerate(cases):
         impl = c.pop("_impl")
-        model, spec = out[2 * i], out[2 * i + 1]
+        model, spec, conv = out[3 * i], out[3 * i + 1], out[3 * i + 2]
         ctx.traces += 1
+        # cross-model: Lean `toC04` of the implementation's entries = the encoding C04's harness feeds its model
+        want = [[ch, [[c04.bits_of(r), k, m, c04.bits_of(None if x < 0 else x for x in src)] for r, k, m, src in es]]
+                for ch, es in impl.get("ok", [])]
+        if conv != want:
+            ctx.mismatch("c10.to_c04", "toC04 of the tables differs from the C04 encoding: %r / %r" % (
+                str(conv)[:200], str(want)[:200]), c)
         wf = all(wellformed(n["tree"]) for n in c["nets"])
         ctx.tag("forest_" + ("ok" if "ok" in impl else impl["err"][0]) + ("" if wf else "_malformed"))
         if "ok" in impl and shares(c):
@@ -332,7 +372,7 @@ class RouterMachine(simmachine.SimMachine):
         rc = struct.unpack_from("<H", reply, 10)[0]
         self.pairs.append({"req": req_list(req), "rc": rc,
                            "arg1": struct.unpack_from("<I", payload)[0] if req["cmd"] == 28 and len(payload) >= 4 else 0,
-                           "data": list(payload) if req["cmd"] == 2 else [], "check": check})
+                           "data": list(payload) if req["cmd"] == 2 else [], "check": check, "lost": False})
         return reply
 
     # ALLOC_FREE (28): arg1 = app << 8 | op
@@ -472,11 +512,30 @@ def expand_load(case):
                                            else ["first", "last", "rand"]),
                       "pseed": rng.randrange(1 << 30), "zero": rng.random() < 0.5})
         tables.append([list(xy), gen_entries(rng, n)])
-    return {"chips": chips, "tables": tables, "app": rng.choice([0, 1, 16, 66, 255, rng.randrange(256)]),
+    full = {"chips": chips, "tables": tables, "app": rng.choice([0, 1, 16, 66, 255, rng.randrange(256)]),
             "buf": rng.choice([16, 64, 128, 256, 256, 256, 512]),
             "via": "entries" if n_chips == 1 and rng.random() < 0.5 else "tables",
             "clear": rng.random() < 0.3, "wide": case.get("wide", False),
             "readback": [c for i, c in enumerate(coords) if i == 0 or rng.random() < 0.3]}
+    # (drawn after everything else so that older payloads expand as before)
+    # bystander chips: a router state but no table - load_routing_tables must leave them alone
+    full["bystanders"] = []
+    if case["size"] != "huge" and rng.random() < 0.5:
+        rest = [(x, y) for x in range(W) for y in range(H) if (x, y) not in coords]
+        for xy in rng.sample(rest, rng.choice([1, 1, 2])):
+            full["bystanders"].append({"chip": list(xy), "sys_buf": 0x60000000 + 4 * rng.randrange(0x10000),
+                                       "copy_base": 0x70000000 + 16 * rng.randrange(0x1000),
+                                       "rows": gen_rows(rng, rng.choice(["empty", "frag"])), "policy": "first",
+                                       "pseed": 0, "zero": False})
+    # lossy stream: for some chips the first transmission(s) of the alloc_rtr request are lost - either the
+    # request itself (never executed) or its reply (executed, answer never seen: the retransmission allocates again)
+    full["loss"] = []
+    if case.get("lost"):
+        for i, xy in enumerate(coords):
+            if i == 0 or rng.random() < 0.5:
+                full["loss"].append([list(xy), rng.choice([["reply"], ["reply"], ["reply"], ["request"], ["reply", "reply"],
+                                                           ["request", "reply"], ["reply", "request"]])])
+    return full
 
 
 def sv_layout():
@@ -508,14 +567,26 @@ def run_load_impl(case, full, sv):
     from rig.machine_control import scp_connection as sc
     from rig.machine_control.machine_controller import SpiNNakerRouterError
     from rig.routing_table import RoutingTableEntry, Routes
-    machine = RouterMachine(full["chips"], full["buf"], sv)
-    net = simnet.Net(machine.handle, lambda k, data: [(1, "ok")])
+    machine = RouterMachine(full["chips"] + full.get("bystanders", []), full["buf"], sv)
+    loss = {tuple(xy): list(kinds) for xy, kinds in full.get("loss", [])}
+
+    def script(k, data):
+        q = simnet.parse_scp(data)
+        if q["cmd"] == 28 and q["arg1"] is not None and (q["arg1"] & 0xff) == 3:
+            todo = loss.get(machine.chip(q["x"], q["y"]))
+            if todo:
+                if todo.pop(0) == "reply":
+                    machine.handle(data)            # executed by the chip, the reply never arrives
+                    machine.pairs[-1]["lost"] = True
+                return []
+        return [(1, "ok")]
+    net = simnet.Net(machine.handle, script)
     res = {"machine": machine}
     with simnet.installed(net):
         mc = simmachine.make_controller(net)
         mc._window_size = case.get("window", 1)
         _ = mc.scp_data_length
-        res["rows0"] = {tuple(c["chip"]): machine.rows_json(tuple(c["chip"])) for c in full["chips"]}
+        res["rows0"] = {xy: machine.rows_json(xy) for xy in machine.chips}
         start = len(net.log)
         n_pairs = len(machine.pairs)
         tables = {}
@@ -562,12 +633,23 @@ def run_load_impl(case, full, sv):
 
 def chip_states(full, rows_by_chip, sv):
     out = []
-    for c in full["chips"]:
+    for c in full["chips"] + full.get("bystanders", []):
         xy = tuple(c["chip"])
         mem = [[sv["base"] + sv["sdram_sys"] + i, b] for i, b in enumerate(struct.pack("<I", c["sys_buf"]))] + \
               [[sv["base"] + sv["rtr_copy"] + i, b] for i, b in enumerate(struct.pack("<I", c["copy_base"]))]
         out.append({"chip": list(xy), "mem": mem, "rows": rows_by_chip[xy], "copy_base": c["copy_base"]})
     return out
+
+
+def claim_rows(rows, b, n, app):
+    """rows (sparse JSON form) after a block b..b+n-1 was allocated to app (b = 0: refused, nothing changes)"""
+    if b == 0:
+        return rows
+    by = {r[0]: list(r) for r in rows}
+    for i in range(b, b + n):
+        r = by.setdefault(i, [i, 0, 0, None, None])
+        r[3] = app
+    return [by[i] for i in sorted(by)]
 
 
 def prepare_load(case, sv):
@@ -576,17 +658,21 @@ def prepare_load(case, sv):
     res = run_load_impl(case, full, sv)
     chips0 = chip_states(full, res["rows0"], sv)
     chips1 = chip_states(full, res["rows1"], sv)
-    # observed allocation answers per chip, in order
-    bases = [[p["req"][:2], p["arg1"]] for p in res["pairs"] if p["req"][3] == 28 and (p["req"][4] & 0xff) == 3]
+    # observed allocation answers per chip, in order (those the controller received / those whose reply was lost)
+    bases = [[p["req"][:2], p["arg1"]] for p in res["pairs"]
+             if p["req"][3] == 28 and (p["req"][4] & 0xff) == 3 and not p["lost"]]
+    lost = [[p["req"][:2], p["arg1"]] for p in res["pairs"]
+            if p["req"][3] == 28 and (p["req"][4] & 0xff) == 3 and p["lost"]]
     model_tables = [[xy, [[r, k + ((1 << 32) if full["wide"] and i == len(es) - 1 else 0), m] for i, (r, k, m) in enumerate(es)]]
                     for xy, es in full["tables"]]
     reqs = [
         {"suite": "c10", "op": "replay", "chips": chips0,
          "pairs": [{"req": p["req"], "arg1": p["arg1"], "data": p["data"], "check": p["check"]} for p in res["pairs"]]},
         {"suite": "c10", "op": "load_model", "chips": chips0, "tables": model_tables, "scp_len": full["buf"],
-         "app": full["app"], "bases": bases},
+         "app": full["app"], "bases": bases, "lost": lost},
     ]
     chip_list = [tuple(c["chip"]) for c in full["chips"]]
+    bystanders = [tuple(c["chip"]) for c in full.get("bystanders", [])]
     rb_list = [tuple(c) for c in full["readback"]]
     for xy in rb_list:
         reqs.append({"suite": "c10", "op": "get_model", "chips": chips1, "scp_len": full["buf"], "x": xy[0], "y": xy[1]})
@@ -595,14 +681,33 @@ def prepare_load(case, sv):
                      "app": full["app"]})
     raised = isinstance(res["outcome"], list) and res["outcome"][0] == "RouterError"
     reached = {}
-    for p in res["pairs"]:
+    for i, p in enumerate(res["pairs"]):
         xy = tuple(p["req"][:2])
         if p["req"][3] in (28, 29, 3):
-            d = reached.setdefault(xy, {"base": None, "wrote": False})
-            if p["req"][3] == 28 and (p["req"][4] & 0xff) == 3 and d["base"] is None:
-                d["base"] = p["arg1"]
+            d = reached.setdefault(xy, {"base": None, "wrote": False, "lost": [], "last_lost": None})
+            if p["req"][3] == 28 and (p["req"][4] & 0xff) == 3:
+                if p["lost"]:
+                    d["lost"].append(p["arg1"])
+                    d["last_lost"] = i
+                elif d["base"] is None:
+                    d["base"] = p["arg1"]
             if p["req"][3] in (3, 29):
                 d["wrote"] = True
+    # the router a chip had when the allocation request that was *answered* was executed: the initial rows, plus the
+    # blocks claimed by executions whose reply was lost (cross-checked against the Lean specification below)
+    n_of = {tuple(xy): len(es) for xy, es in full["tables"]}
+    rows_before = dict(res["rows0"])
+    mid_idx = {}
+    for xy, d in reached.items():
+        if d["lost"]:
+            rows = res["rows0"][xy]
+            for b in d["lost"]:
+                rows = claim_rows(rows, b, n_of.get(xy, 0), full["app"])
+            rows_before[xy] = rows
+            mid_idx[xy] = len(reqs)
+            reqs.append({"suite": "c10", "op": "replay", "chips": [c for c in chips0 if tuple(c["chip"]) == xy],
+                         "pairs": [{"req": p["req"], "arg1": p["arg1"], "data": p["data"], "check": p["check"]}
+                                   for p in res["pairs"][:d["last_lost"] + 1] if tuple(p["req"][:2]) == xy]})
     oracle_idx = {}
     in_domain = not full["wide"]
     for (xy, es) in full["tables"]:
@@ -610,9 +715,23 @@ def prepare_load(case, sv):
         d = reached.get(xy)
         if d is not None and d["base"] is not None and in_domain:
             oracle_idx[xy] = len(reqs)
-            reqs.append({"suite": "c10", "op": "load_spec", "rows0": res["rows0"][xy], "rows_f": res["rows1"][xy],
+            reqs.append({"suite": "c10", "op": "load_spec", "rows0": rows_before[xy], "rows_f": res["rows1"][xy],
                          "entries": es, "app": full["app"], "base": d["base"],
                          "raised": raised and d["base"] == 0, "wrote_or_loaded": d["wrote"]})
+    # the whole call on the whole machine (Lean predicate TablesLoadSpec, theorem load_tables_spec): tables in the
+    # order in which the implementation addressed the chips (the property does not fix the dict order), chips it
+    # never addressed last; every chip without a table must be unchanged
+    machine_idx = None
+    if in_domain and (res["outcome"] == "ok" or raised):
+        order = [xy for xy in reached if xy in n_of] + [tuple(xy) for xy, _ in full["tables"] if tuple(xy) not in reached]
+        by_chip = {tuple(xy): es for xy, es in full["tables"]}
+        machine_idx = len(reqs)
+        reqs.append({"suite": "c10", "op": "tables_load_spec",
+                     "rows0": [[list(xy), rows_before[xy]] for xy in order + bystanders],
+                     "rows_f": [[list(xy), res["rows1"][xy]] for xy in order + bystanders],
+                     "tables": [[list(xy), by_chip[xy]] for xy in order], "app": full["app"],
+                     "bases": [[list(xy), d["base"]] for xy, d in reached.items() if d["base"] is not None],
+                     "raised": res["outcome"] if raised else None, "others": [list(xy) for xy in bystanders]})
     rb_idx = {}
     for xy in rb_list:
         if "ok" in res["readback"][xy]:
@@ -620,7 +739,8 @@ def prepare_load(case, sv):
             reqs.append({"suite": "c10", "op": "readback_spec", "rows": res["rows1"][xy], "table": res["readback"][xy]["ok"]})
     del res["machine"]
     st = dict(case=case, full=full, res=res, chip_list=chip_list, rb_list=rb_list, raised=raised, reached=reached,
-              oracle_idx=oracle_idx, rb_idx=rb_idx, in_domain=in_domain)
+              oracle_idx=oracle_idx, rb_idx=rb_idx, in_domain=in_domain, bystanders=bystanders, mid_idx=mid_idx,
+              rows_before=rows_before, machine_idx=machine_idx, n_of=n_of)
     return st, reqs
 
 
@@ -633,7 +753,14 @@ def judge_load(ctx, st, out):
     if rp.get("disagree"):
         raise Infra("simulated router disagrees with the Lean specification: %s (case %r)" % (rp["disagree"], case))
     spec_final = {tuple(c): rows for c, rows in rp["final"]}
-    for xy in chip_list:
+    for xy, i in st["mid_idx"].items():
+        mid = out[i]
+        if mid.get("disagree"):
+            raise Infra("simulated router disagrees with the Lean specification: %s (case %r)" % (mid["disagree"], case))
+        if dict((tuple(c), rows) for c, rows in mid["final"]).get(xy, []) != st["rows_before"][xy]:
+            raise Infra("router state after the unanswered allocation differs from the Lean specification "
+                        "(chip %r, case %r)" % (xy, case))
+    for xy in chip_list + st["bystanders"]:
         want = res["rows2"] if (full["clear"] and xy == chip_list[0]) else res["rows1"][xy]
         if spec_final.get(xy, []) != want:
             raise Infra("simulated router state differs from the Lean specification after the same commands "
@@ -648,7 +775,7 @@ def judge_load(ctx, st, out):
             len(res["trace_load"])), case)
     elif lm["outcome"] != res["outcome"]:
         ctx.mismatch("c10.load_outcome", "model=%r impl=%r" % (lm["outcome"], res["outcome"]), case)
-    elif {tuple(c): rows for c, rows in lm["final"]} != {xy: res["rows1"][xy] for xy in chip_list}:
+    elif {tuple(c): rows for c, rows in lm["final"]} != {xy: res["rows1"][xy] for xy in chip_list + st["bystanders"]}:
         ctx.mismatch("c10.load_final", "router contents differ between model run and simulated machine", case)
     for k, xy in enumerate(rb_list):
         gm = out[2 + k]
@@ -681,21 +808,26 @@ def judge_load(ctx, st, out):
         ctx.tag("out_of_domain_key")
         ctx.case(case, False)
         return
+    reported = [False]
+
+    def violation(key, what):
+        reported[0] = True
+        ctx.violation(key, what, case)
     if isinstance(res["outcome"], list) and res["outcome"][0] != "RouterError":
-        ctx.violation("unexpected-error", "loading raised %r" % (res["outcome"],), case)
+        violation("unexpected-error", "loading raised %r" % (res["outcome"],))
     any_failed = False
     for (xy, es) in full["tables"]:
         xy = tuple(xy)
         d = reached.get(xy)
         if d is None or d["base"] is None:
             if d is not None and d["wrote"]:
-                ctx.violation("no-allocation", "chip %r was written/loaded without allocating router rows" % (xy,), case)
+                violation("no-allocation", "chip %r was written/loaded without allocating router rows" % (xy,))
             elif res["outcome"] == "ok":
-                ctx.violation("table-not-loaded", "call returned normally but chip %r was never addressed" % (xy,), case)
+                violation("table-not-loaded", "call returned normally but chip %r was never addressed" % (xy,))
             else:
                 ctx.tag("chip_not_reached_after_failure")
                 if res["rows1"][xy] != res["rows0"][xy]:
-                    ctx.violation("stray-router-change", "router of chip %r changed although never addressed" % (xy,), case)
+                    violation("stray-router-change", "router of chip %r changed although never addressed" % (xy,))
             continue
         ok = out[st["oracle_idx"][xy]]
         ctx.tag("alloc_failed" if d["base"] == 0 else "alloc_ok", "n_%s" % (
@@ -715,22 +847,68 @@ def judge_load(ctx, st, out):
                 what = ("after loading %d entries at base %d on chip %r the router does not hold exactly the given entries "
                         "(rows base..base+n-1 in order, app %d, other rows unchanged)" % (len(es), d["base"], xy, full["app"]))
                 key = "router-not-exact"
-            ctx.violation(key, what, case)
+            violation(key, what)
         elif d["base"] != 0 and xy in rb_list and "ok" in res["readback"][xy]:
             got = res["readback"][xy]["ok"][d["base"]:d["base"] + len(es)]
             want = [[sorted(r), k, m, full["app"], 0] for r, k, m in es]
             if got != want:
                 i = next((i for i, (a, b) in enumerate(zip(got, want)) if a != b), 0)
-                ctx.violation("readback-differs", "entry %d read back as %r, loaded %r" % (i, got[i:i + 1], want[i:i + 1]), case)
+                violation("readback-differs", "entry %d read back as %r, loaded %r" % (i, got[i:i + 1], want[i:i + 1]))
     if raised and not any_failed:
-        ctx.violation("spurious-router-error", "SpiNNakerRouterError although every allocation succeeded", case)
+        violation("spurious-router-error", "SpiNNakerRouterError although every allocation succeeded")
     for xy in rb_list:
         rb = res["readback"][xy]
         if "ok" not in rb:
-            ctx.violation("readback-error", "get_routing_table_entries raised %r" % (rb["err"],), case)
+            violation("readback-error", "get_routing_table_entries raised %r" % (rb["err"],))
         elif out[st["rb_idx"][xy]] is not True:
-            ctx.violation("readback-not-exact", "get_routing_table_entries of chip %r does not return the router's rows "
-                          "(1024 items; key, mask, route set, app, core; None for unused)" % (xy,), case)
+            violation("readback-not-exact", "get_routing_table_entries of chip %r does not return the router's rows "
+                      "(1024 items; key, mask, route set, app, core; None for unused)" % (xy,))
+    # ---- the whole machine ----------------------------------------------------------------------
+    for xy in st["bystanders"]:
+        ctx.tag("bystander_chip")
+        if res["rows1"][xy] != res["rows0"][xy]:
+            violation("stray-router-change", "router of chip %r, which has no table, was changed" % (xy,))
+    if st["machine_idx"] is not None:
+        ms = out[st["machine_idx"]]
+        ctx.tag("machine_spec_" + ("ok" if res["outcome"] == "ok" else "partial"))
+        if not ms["others_unchanged"] and not reported[0]:
+            violation("stray-router-change", "a chip without a table was changed by load_routing_tables")
+        if not ms["holds"] and not reported[0]:
+            # every per-chip clause of the property held, only the behaviour across chips differs from the model
+            # (theorems load_tables_exact / load_tables_failure): reported as a broken correspondence
+            ctx.mismatch("c10.machine_load",
+                         "load_routing_tables: in the order the chips were addressed, not (every chip before the first "
+                         "refused allocation holds exactly its table, the refusing chip and all later ones untouched, "
+                         "error naming that chip / normal return iff none refused)", case)
+    # ---- retransmitted allocations (resource observation, not part of the property) -------------------
+    for xy, d in reached.items():
+        for b in d["lost"]:
+            n = st["n_of"].get(xy, 0)
+            stats = ctx.extra.setdefault("retransmitted_alloc", {"replies_lost": 0, "blocks_leaked": 0, "rows_leaked": 0,
+                                                                   "then_refused": 0})
+            stats["replies_lost"] += 1
+            ctx.tag("alloc_reply_lost")
+            if b != 0 and n > 0:
+                after = {r[0]: r for r in res["rows1"][xy]}
+                before = {r[0]: r for r in res["rows0"][xy]}
+                leaked = all(after.get(i, [i, 0, 0, None, None])[3] == full["app"] and
+                             after.get(i, [i, 0, 0, None, None])[4] == before.get(i, [i, 0, 0, None, None])[4]
+                             for i in range(b, b + n))
+                if leaked and d["base"] != b:
+                    stats["blocks_leaked"] += 1
+                    stats["rows_leaked"] += n
+                    ctx.tag("alloc_block_leaked")
+                    nontrivial = True
+                    if d["base"] == 0:
+                        stats["then_refused"] += 1
+                        ctx.tag("alloc_block_leaked_then_refused")
+                else:
+                    ctx.mismatch("c10.retransmit", "block %d..%d of the unanswered allocation on chip %r is not left "
+                                 "allocated and unused as the specification says (theorem alloc_retransmit_leak)"
+                                 % (b, b + n - 1, xy), case)
+    for xy, kinds in full.get("loss", []):
+        if "request" in kinds:
+            ctx.tag("alloc_request_lost")
     ctx.case(case, nontrivial)
 
 
@@ -804,15 +982,18 @@ def eval_codec(ctx, cases):
         ctx.traces += 1
 
 
-def gen_load_cases(ctx, n):
+def gen_load_cases(ctx, n, lost=False):
     rng = ctx.rng
     cases = []
     for i in range(n):
         r = rng.random()
-        size = "huge" if r < (0.03 if ctx.quick else 0.06) else "big" if r < 0.12 else "small"
-        cases.append({"kind": "load", "seed": rng.randrange(1 << 40), "size": size,
-                      "n_chips": 1 if size == "huge" else rng.choice([1, 1, 2, 3]),
-                      "window": rng.choice([1, 1, 2, 8]), "wide": rng.random() < 0.02})
+        size = "huge" if r < (0.03 if ctx.quick else 0.06) and not lost else "big" if r < 0.12 else "small"
+        c = {"kind": "load", "seed": rng.randrange(1 << 40), "size": size,
+             "n_chips": 1 if size == "huge" else rng.choice([1, 1, 2, 3]),
+             "window": rng.choice([1, 1, 2, 8]), "wide": rng.random() < 0.02 and not lost}
+        if lost:
+            c["lost"] = True
+        cases.append(c)
     return cases
 
 
@@ -822,7 +1003,8 @@ def run(ctx):
         "trees: a subtree child is reached by a link direction 0..5 (documented; other shapes raise and are only compared)",
         "keys and masks are 32-bit, app ids 0..255, at most 1024 entries (documented domain of the load path)",
         "router behaviour of SC&MP (alloc_rtr, router load, router copy layout) = the Lean specification in Model/C10.lean",
-        "reliable network in this check (loss and reordering are C06/C07)"]
+        "network: reliable except for the lossy stream, which loses only first transmissions of alloc_rtr requests or "
+        "their replies (general loss and reordering are C06/C07)"]
     mult = 4 if ctx.extended else 1
     n_forest = ctx.scale(1000, 30000) * mult
     n_load = ctx.scale(120, 1800) * mult
@@ -832,6 +1014,7 @@ def run(ctx):
         eval_forests(ctx, forests[i:i + 2000])
     eval_codec(ctx, gen_codec(ctx.rng, n_codec))
     eval_loads(ctx, gen_load_cases(ctx, n_load))
+    eval_loads(ctx, gen_load_cases(ctx, ctx.scale(30, 300) * mult, lost=True))
 
 
 def replay(ctx, payload):
